@@ -591,6 +591,9 @@ class Dataset(AbstractDataset, dict, OpMixin, GetSetDelAttrMixin):
         # all variables are looked up and removed before any is stored under its new name,
         # so that the renaming is simultaneous (e.g. a swap {'a':'b', 'b':'a'} works)
         iterkeys = list(iterkeys)
+        news = [new for old, new in iterkeys]
+        if len(set(news)) != len(news):
+            raise ValueError("two variables cannot be renamed to the same key: {}".format(news)) # (one of them would be lost)
         vals = [super(Dataset, ds).__getitem__(old) for old, new in iterkeys] # same as ds[old]
         olds = [old for old, new in iterkeys if old != new]
         for old, new in iterkeys:
